@@ -369,6 +369,35 @@ RANK_CHANGERS = {"mergeRanks", "unflattenRanks", "flattenRanks", "splitUniform",
 def _restore_rules(db: DB, rep: Report, hm) -> None:
     """W4-W6: the output is returned to its declared layout and every change of
     its rank structure is followed by a renaming of the rank ids."""
+    # ---- W8: a swizzle is elided only when the tensor's variable name did not change ---------
+    rep.rule("W8", "Header.make_swizzle emits the binding of the new name unless the name is unchanged", 1)
+    ms = db.func("teaal.trans.header.Header.make_swizzle")
+    empties = [n for n in walk_no_nested(ms.node) if isinstance(n, ast.Return) and n.value is not None and
+               norm(n.value) in ("SBlock([])",)]
+    if not empties:
+        rep.undecided("W8", db.loc(ms.node), ms.short, "the elision (return of an empty block) was not found")
+    for r in empties:
+        atoms = [(a, p_) for t, pol in paths.guards(r, stop=ms.node) for a, p_ in paths.conjuncts(t, pol)]
+        name_eq = False
+        other = []
+        for a, p_ in atoms:
+            if isinstance(a, ast.Compare) and len(a.ops) == 1 and isinstance(a.ops[0], (ast.Eq, ast.NotEq)):
+                sides = [paths.resolve_flow(x, a, ms.node, depth=2) for x in (a.left, a.comparators[0])]
+                is_name = [isinstance(x, ast.Call) and isinstance(x.func, ast.Attribute) and
+                           x.func.attr == "tensor_name" for x in sides]
+                if all(is_name) and (isinstance(a.ops[0], ast.Eq) == p_):
+                    name_eq = True
+                    continue
+                if any(isinstance(x, ast.Call) and isinstance(x.func, ast.Attribute) and
+                       x.func.attr in ("get_ranks", "get_init_ranks") for x in sides):
+                    other.append(norm(a))
+        rep.check("W8", name_eq, db.loc(r), ms.short, "elision-guard",
+                  "the swizzle is elided only under equality of tensor_name() before and after",
+                  "Header.make_swizzle returns no statement under %s instead of 'the variable name is "
+                  "unchanged': when the name changes although the rank order does not (a '_flat' suffix "
+                  "dropped by a partitioning swizzle), later statements read a name that was never bound - "
+                  "or re-read the stale tensor under the old one" % (other or [norm(a) for a, _ in atoms]),
+                  decided=name_eq or bool(other))
     rep.rule("W7", "flattenRanks / unflattenRanks levels = ranks of the group - 1", 2)
     _levels_rule(db, rep)
     # ---- W5: the footer always restores the output ---------------------------------
@@ -500,6 +529,8 @@ def mutants(db: DB):
     eq, hd, ie = "teaal/trans/equation.py", "teaal/trans/header.py", "teaal/ir/equation.py"
     pt = "teaal/trans/partitioner.py"
     return [
+        M("swizzle elided when the rank order is unchanged", "teaal/trans/header.py",
+          "        if old_name == new_name:", "        if old_name == new_name or tensor.get_ranks() == tensor.get_init_ranks():", "W8"),
         M("temporary ranks recognised by endswith on the rank name", "teaal/trans/partitioner.py",
           "                    if suffix and suffix[-1] == \"I\":", "                    if info[0].endswith(\"I\"):", "W6"),
         M("unflatten levels from the partitioning spec", pt,
